@@ -20,6 +20,8 @@ import (
 	"sync"
 	"syscall"
 	"time"
+
+	"verif/harness/freeport"
 )
 
 // Item is one top-level configuration action, e.g. {"work-command": {...}}.
@@ -44,16 +46,18 @@ type Daemon struct {
 	exitErr error
 }
 
-// FreePort returns a loopback TCP port that was free a moment ago.
-func FreePort() int {
-	l, err := net.Listen("tcp", "127.0.0.1:0")
-	if err != nil {
-		panic(err)
+// logTail: the end of a daemon's own output, for messages that must explain themselves without the scratch files.
+func logTail(p string) string {
+	b, _ := os.ReadFile(p)
+	if len(b) > 1200 {
+		b = b[len(b)-1200:]
 	}
-	defer l.Close()
 
-	return l.Addr().(*net.TCPAddr).Port
+	return string(b)
 }
+
+// FreePort returns an unused loopback TCP port reserved for this process (package freeport: outside the ephemeral range).
+func FreePort() int { return freeport.Must() }
 
 // NewDaemon prepares (does not start) a daemon. ctlService is the control-service item's extra keys
 // (e.g. "tls"); withTCP adds a loopback TCP control listener.
@@ -139,7 +143,7 @@ func (d *Daemon) Start(ready time.Duration) error {
 	deadline := time.Now().Add(ready)
 	for time.Now().Before(deadline) {
 		if !d.Alive() {
-			return fmt.Errorf("daemon %s exited during start: %v (see %s)", d.ID, d.ExitErr(), d.LogFile)
+			return fmt.Errorf("daemon %s exited during start: %v (last output: %q)", d.ID, d.ExitErr(), logTail(d.LogFile))
 		}
 		c, err := DialUnix(d.Sock, 2*time.Second)
 		if err == nil {
@@ -150,7 +154,7 @@ func (d *Daemon) Start(ready time.Duration) error {
 		time.Sleep(30 * time.Millisecond)
 	}
 
-	return fmt.Errorf("daemon %s not ready after %v (see %s)", d.ID, ready, d.LogFile)
+	return fmt.Errorf("daemon %s not ready after %v (last output: %q)", d.ID, ready, logTail(d.LogFile))
 }
 
 // Alive reports whether the process is still running.
